@@ -72,7 +72,7 @@ def generate(rng, tier):
         cs = mod.generate(sub, "quick")
         sub.shuffle(cs)
         for c in cs[:per]:
-            base.append(Case(c.op, c.args, mop=c.mop, meta={"nt": False, "src": name}))
+            base.append(Case(c.op, c.args, mop=c.mop, margs=c.margs, meta={"nt": False, "src": name}))
     cases = list(base)
     pool = [c for c in base if c.op in TEXT_OPS or c.op in BYTE_OPS or c.op in FIRST_ARG_TEXT or c.op in TWO_BYTE_ARGS]
     for _ in range(nfuzz):
@@ -140,7 +140,7 @@ def nontrivial(c):
 
 def model_post(c, o):
     # digests are outside the model: same post-processing as the properties the cases come from
-    if c.op in ("di.verify", "di.verifyl"):
+    if c.op in ("di.verify", "di.verifyl", "di.everify"):
         return importlib.import_module("props.c12").model_post(c, o)
     if c.op.startswith("dg."):
         return importlib.import_module("props.c13").model_post(c, o)
